@@ -32,7 +32,7 @@ def dbname(platform):
 
 
 def gen(rng, n_tus=None, n_platforms=None, outside=False, missing=0.0, toggles=True, subdir=True,
-        forced=True, computed=True, big=False, findable=False, deep=0, casepair=False, reguard=False, dirdecoy=False, outside_tu=False, updir=False, links=False, oddnames=False, dirlinks=False):
+        forced=True, computed=True, big=False, findable=False, deep=0, casepair=False, reguard=False, dirdecoy=False, outside_tu=False, updir=False, links=False, oddnames=False, dirlinks=False, dupdirs=False):
     """deep=N: the first translation unit also includes a chain of N headers nested N levels deep (each level holds
     code and a macro test; the innermost one defines a macro the translation unit tests afterwards and includes
     ordinary -- possibly missing -- headers).  gcc's nesting limit is 200.
@@ -53,6 +53,9 @@ def gen(rng, n_tus=None, n_platforms=None, outside=False, missing=0.0, toggles=T
     includes "up_inc/../dl_hdr.h": the operating system climbs from the link's target, so this is inc/dl_hdr.h and not
     the decoy of the same name beside the includer (key `flinks`; `<up_inc/../dl_hdr.h>` likewise when the link's
     directory is searched).
+    dupdirs: a search directory is named twice on a command: by -I and again by -isystem (a compiler then ignores the
+    -I and searches the directory in its -isystem position, i.e. after every other -I directory), or twice by -I (the
+    second one is ignored).
     dirdecoy: a *directory* named like a header sits in a search directory that has no such header file (a compiler
     skips it and keeps searching)."""
     dirs = ["src"] + (["src/sub"] if subdir and rng.random() < 0.7 else []) + INC_DIRS
@@ -221,6 +224,14 @@ def gen(rng, n_tus=None, n_platforms=None, outside=False, missing=0.0, toggles=T
         search = []
         for sd in sdirs:
             search.append([rng.choice(["I", "I", "isystem"]), sd])
+        if dupdirs:
+            plain = [x for x in search if x[0] == "I"]
+            if plain and t % 3 == 0:
+                search.append(["isystem", plain[0][1]])
+            elif plain and t % 3 == 1:
+                search.insert(0, ["isystem", plain[-1][1]])
+            elif plain:
+                search.append(["I", plain[0][1]])
         defines = [x for x in ["A", "B=1", "C=0", "T"] if rng.random() < 0.35]
         if rng.random() < 0.7:
             defines.append("LVL=%d" % rng.randint(0, 3))
